@@ -60,13 +60,15 @@ theorem lock_scope :
 
 /-- Where `(msg_id, seq_no)` pairs come from and go: every `c.nextMsgSeq(…)` call passes a literal
 flag — `true` in `Invoke`, `false` in `writeServiceMessage` (acks, pings, get_future_salts) —
-`Conn.write` hands its `msgID, seqNo` to `newEncryptedMessage`, which puts them into every
-`EncryptedMessageData` it builds. -/
+`Invoke` builds its request once and passes that same value to every `rpc.Do` (a bad-salt retry
+re-sends the same message, it does not mint a new id), `Conn.write` hands its `msgID, seqNo` to
+`newEncryptedMessage`, which puts them into every `EncryptedMessageData` it builds. -/
 theorem id_seq_reach_the_wire :
     (∀ s ∈ Facts.C08.nextMsgSeqSites, s.2 = "true" ∨ s.2 = "false") ∧
     ("Invoke", "true") ∈ Facts.C08.nextMsgSeqSites ∧
     ("writeServiceMessage", "false") ∈ Facts.C08.nextMsgSeqSites ∧
     Facts.C08.writePassesIdSeq = true ∧
+    Facts.C08.invokeRequestWrites = 1 ∧ Facts.C08.invokeAlwaysSendsSameRequest = true ∧
     Facts.C08.encryptedDataLiterals = Facts.C08.encryptedDataLiteralsWithId ∧
     Facts.C08.encryptedDataLiterals = Facts.C08.encryptedDataLiteralsWithSeq ∧
     0 < Facts.C08.encryptedDataLiterals := by decide
